@@ -247,6 +247,8 @@ def k_equal(base, chk):
 
 def run(chk):
     prog, base = setup(chk)
+    from .common import api_surface, SCALAR_API
+    api_surface(chk, prog, 'Scalar', SCALAR_API, 'C07 (arithmetic) or C08 (encodings)')
     chk.bounds = ["all operands in [0,l) (unique saturated Montgomery representation, the fiat-crypto precondition)", "Invert: the real pow2k loops (253 squarings + table)"]
     chk.outside = ["limb vectors >= l (not constructible through the API: every setter reduces, C08)", "t^(l-2) = 1/t (Fermat, l prime)",
                    "ring facts: x -> x*2^256 is a bijection of Z/l commuting with + and *, used to read the fiat contracts as statements about the encoded value"]
